@@ -303,11 +303,15 @@ theorem countAttempts_attemptEvents {P : Type} (cfg : Cfg) (nss : List Ns) (o : 
     countAttempts (attemptEvents cfg nss o : List (Ev P)) = 0 := by
   cases o with
   | served acc =>
-    simp only [attemptEvents]
-    generalize enum 0 nss = l
-    induction l with
-    | nil => rfl
-    | cons x xs ih => simp [countAttempts, ih]
+    simp only [attemptEvents, countAttempts_append]
+    have h1 : ∀ l : List (Nat × Ns), countAttempts (l.map (fun (p : Nat × Ns) =>
+        (Ev.handler (if accepted acc p.1 then HName.connect else HName.connectError) p.2 : Ev P))) = 0 := by
+      intro l
+      induction l with
+      | nil => rfl
+      | cons x xs ih => simp [countAttempts, ih]
+    rw [h1]
+    split <;> simp [countAttempts]
   | transport =>
     simp only [attemptEvents]
     induction nss with
